@@ -39,6 +39,12 @@ def diversify(df):
     for c in ["bruttolohn_m", "vermögen_bedürft", "kapitaleink_brutto_m", "sonstig_eink_m"]:
         out[c] = np.where(adult | (c == "vermögen_bedürft"), out[c].to_numpy() + rank * 13.37, out[c].to_numpy()).round(2)
     out["bruttolohn_vorj_m"] = np.where(adult, out["bruttolohn_vorj_m"].to_numpy() + rank * 7.5, out["bruttolohn_vorj_m"].to_numpy())
+    # pensioner status differs between the adults of a household (disability / early pensions exist
+    # at any adult age); keep the retirement date consistent with the flag
+    second_adult = adult & (out[adult].groupby("hh_id").cumcount().reindex(out.index, fill_value=0).to_numpy() == 1)
+    year = int(out["geburtsjahr"].iloc[0] + out["alter"].iloc[0])
+    out["rentner"] = np.where(second_adult, True, out["rentner"].to_numpy())
+    out["jahr_renteneintr"] = np.where(second_adult, np.minimum(out["jahr_renteneintr"].to_numpy(), year - 1), out["jahr_renteneintr"].to_numpy())
     return out
 
 
@@ -122,8 +128,47 @@ def oracle(pop, date, sh, ctx):
     return fails
 
 
+def sweep_shard(desc):
+    """Wage sweeps (one household copied along a wage grid, members diversified): drives the
+    group-level rules through the benefit regimes, where branches on individual attributes hide."""
+    import datetime
+
+    from hypothesis import strategies as st
+
+    from .. import dates as D
+    from . import c17
+
+    sh = core.Shard()
+    known = core.load_known(PROP)
+    date = datetime.date.fromisoformat(desc["date"])
+    ctx = {"tier": desc["tier"], "seed": desc["seed"], "iso": desc["date"], "known": known}
+
+    def oracle(case):
+        pop, who, top, npts, zero_other, wealth, rent = case
+        base = diversify(pop.df)
+        sweep, grid, n = c17.build_sweep(base, who, top, npts, zero_other, wealth if not isinstance(wealth, (tuple, list)) else 0.0, rent)
+        stats = []
+        fails = check(sweep, date, stats)
+        for nme in stats:
+            sh.nontrivial.add(f"{desc['date']}|sweep|{nme}")
+        sh.classes["sweep-cases"] += 1
+        sh.sample({"date": desc["date"], "sweep": True, "archetype": pop.archetypes[0], "household": popgen.brief(base, cols=["p_id", "alter", "rentner", "bruttolohn_m", "kind"])}, limit=1)
+        for f in fails:
+            if f.key not in known:
+                f.case = popcheck.payload(sweep, date)
+        return fails
+
+    core.explore(c17.strategy(date, ctx), oracle, n=desc["n"], seed=D.sub_seed(desc["seed"], PROP, "sweep", desc["date"]),
+                 shard=sh, known=known, shrink=False)
+    return sh
+
+
 def run(tier, seed, t0):
-    return popcheck.run(__name__, tier, seed, t0)
+    from .. import dates as D
+
+    days = [s[0].isoformat() for s in D.pick(D.strata(), 16 if tier == "quick" else 32, seed, PROP, "sweep")]
+    extra = [("vf.checks.c15", "sweep_shard", [{"date": d, "n": 3 if tier == "quick" else 12, "seed": seed, "tier": tier} for d in days])]
+    return popcheck.run(__name__, tier, seed, t0, extra_descs=extra)
 
 
 def replay(case):
